@@ -155,7 +155,16 @@ fn run_worker<W: PathWorker + ?Sized + 'static, P: Printer>(
         stats.add_scanned();
         #[cfg(ast_grep_verif)]
         verif_sched_delay(&p, 0);
-        let Ok(items) = w.produce_item::<P>(&p, processor) else {
+        // A panic in one walker thread would leave the other threads of the parallel walk
+        // (and with them the printing thread) waiting forever: turn it into a failed run.
+        let produced = std::panic::catch_unwind(std::panic::AssertUnwindSafe(|| {
+          w.produce_item::<P>(&p, processor)
+        }));
+        let Ok(produced) = produced else {
+          eprintln!("ERROR: ast-grep panicked while processing {}", p.display());
+          std::process::exit(101);
+        };
+        let Ok(items) = produced else {
           stats.add_skipped();
           return WalkState::Continue;
         };
